@@ -6,7 +6,7 @@ CONSTANT ZIds = {1}
 CONSTANT HIds = {1}
 CONSTANT Lays = {2, 3, 4, 5}
 CONSTANT Mod = 9
-CONSTANT TsMod = 12
+CONSTANT TsMod = 16
 INIT Init
 NEXT Next
 INVARIANT C13_Representable
